@@ -1267,3 +1267,50 @@ def call_exc_method(self, ctx, exc, name, args, kwargs):
 
 
 Lib.call_exc_method = call_exc_method
+
+
+# ---------------------------------------------------------------------------------------------------- functools.reduce
+def bi_functools_reduce(self, ctx, fn, it):
+    """functools.reduce(f, S) over a non-empty set of objects with a *selecting* f (f(a, b) returns a or b):
+       a singleton is returned without calling f; otherwise f is called on pairs of distinct members - either some call
+       raises (witness pair, every path explored) or all complete and the result is some member of S."""
+    if isinstance(it, Obj) and it.cls.lookup("__iter__") is not None:
+        it = self.e.call_function(ctx, it.cls.lookup("__iter__"), [it], {}, dynamic=True)
+    if not (isinstance(it, SymSet) and it.elem_sort == V.RefSort):
+        raise EngineLimit("functools.reduce over %r" % (it,))
+    anyk = V.ObjOf("pydsdl._expression._any.Any")
+    k = ctx.choose(3)
+    x = z3.FreshConst(V.RefSort, "x")
+    if k == 0:
+        a, b = ctx.fresh("acc", V.RefSort), ctx.fresh("nxt", V.RefSort)
+        ctx.assume(z3.And(z3.Select(it.term, a), z3.Select(it.term, b), a != b))
+        oa, ob = anyk.wrap(ctx, a), anyk.wrap(ctx, b)
+        self.e.assume_class_range(ctx, oa)
+        self.e.assume_class_range(ctx, ob)
+        r = self.e.call(ctx, fn, [oa, ob], {})
+        if not (isinstance(r, Obj) and (r.ref.eq(a) or r.ref.eq(b))):
+            raise EngineLimit("functools.reduce with a function that does not select one of its arguments")
+        raise PathEnd()
+    r = ctx.fresh("reduced", V.RefSort)
+    ctx.assume(z3.Select(it.term, r))
+    if k == 1:  # singleton
+        ctx.assume(z3.ForAll([x], z3.Implies(z3.Select(it.term, x), x == r), patterns=[z3.Select(it.term, x)]))
+    res = anyk.wrap(ctx, r)
+    self.e.assume_class_range(ctx, res)
+    return res
+
+
+Lib.bi_functools_reduce = bi_functools_reduce
+
+_orig_isinstance_of = Engine.isinstance_of
+
+
+def isinstance_of(self, ctx, v, cls):
+    if isinstance(cls, V.ClassTagV):
+        if isinstance(v, Obj):
+            return self.tag_fn(v.ref) == cls.term  # exact class match (sufficient for isinstance)
+        return False
+    return _orig_isinstance_of(self, ctx, v, cls)
+
+
+Engine.isinstance_of = isinstance_of
